@@ -220,13 +220,13 @@ func (h *hist) blockTerm(b *nom.AccountBlock) M {
 // facts: what the node knows for this candidate, each read through the public store API
 type facts struct {
 	maKnown, acctStore, prevKnownGlobal, received, methodOK, fromIsSend bool
-	globalFrontier, prevMAHeight, fromTo, next            *int64
-	frontierHash, frontierHeight                         *int64
-	fromConf, frontierMomHeight                          uint64
-	fused, committed, uncommitted, balance               *big.Int
-	base                                                 *int64
-	regenHash, regenChanges                              *int64
-	regenBlock                                           *nom.AccountBlock
+	globalFrontier, prevMAHeight, fromTo, next                          *int64
+	frontierHash, frontierHeight                                        *int64
+	fromConf, frontierMomHeight                                         uint64
+	fused, committed, uncommitted, balance                              *big.Int
+	base                                                                *int64
+	regenHash, regenChanges                                             *int64
+	regenBlock                                                          *nom.AccountBlock
 }
 
 func i64p(v int64) *int64 { return &v }
@@ -632,6 +632,14 @@ func history(rng *rand.Rand, out *Out, idx int) {
 		if rng.Intn(3) == 0 {
 			nd.Momentum()
 		}
+		// now and then the chain advances while the pool stays unconfirmed (a producer publishes an empty momentum): the
+		// unconfirmed contract receives then acknowledge a momentum BELOW the frontier, and a copy regenerated against a
+		// later momentum can be offered (candidates: contract-receive-regenerated-at-other-momentum)
+		if rng.Intn(3) == 0 {
+			if tx, _, err := BuildNext(nd, FrontierOf(nd.Ch), 10, false); err == nil && AddMomentum(nd.Ch, tx) == nil {
+				out.Count("c03:empty-momentum-with-unconfirmed-pool")
+			}
+		}
 		h.deepen()
 		h.candidates()
 		h.forkCandidates()
@@ -779,6 +787,32 @@ func (h *hist) candidatesWith(prefer *nom.AccountBlock) {
 			d := crecv.DescendantBlocks[0].Copy()
 			d.Hash = crecv.DescendantBlocks[0].Hash
 			bases, keys = append(bases, d), append(keys, nil)
+		}
+	}
+	// the same contract receive regenerated by the VM against OTHER acknowledged momentums (every hash is consistent,
+	// no signature is needed): the only acceptable one acknowledges exactly the momentum that confirmed the send
+	if crecv != nil {
+		fh := FrontierOf(nd.Ch).Height
+		for _, mh := range []uint64{crecv.MomentumAcknowledged.Height + 1, fh, crecv.MomentumAcknowledged.Height - 1} {
+			m, err := nd.Ch.GetFrontierMomentumStore().GetMomentumByHeight(mh)
+			if err != nil || m == nil || mh == crecv.MomentumAcknowledged.Height || mh == 0 {
+				continue
+			}
+			// at the very position of the node's own (unconfirmed) receive: same predecessor, same height
+			first := crecv
+			if len(crecv.DescendantBlocks) > 0 {
+				first = crecv.DescendantBlocks[0]
+			}
+			t := &nom.AccountBlock{BlockType: nom.BlockTypeContractReceive, Address: crecv.Address, FromBlockHash: crecv.FromBlockHash,
+				MomentumAcknowledged: m.Identifier(), PreviousHash: first.PreviousHash, Height: first.Height}
+			nd.Fill(t)
+			func() {
+				defer func() { _ = recover() }()
+				if g, err := vm.VerifGenerateEmbeddedReceive(nd.Context(t), crecv.FromBlockHash); err == nil && g != nil {
+					bases, keys = append(bases, g), append(keys, nil)
+					kind[g] = "contract-receive-regenerated-at-other-momentum"
+				}
+			}()
 		}
 	}
 	// a contract receive at the frontier of a contract whose queue is empty (nothing next in line)
